@@ -56,9 +56,11 @@ def make_substitution(ccls, case_map=None):
             if callable(rspec) and not hasattr(rspec, "kind"):
                 rspec = rspec(**callee_case)
             for expr_name, spec in mods.items():
-                base_name, _, attr = expr_name.partition(".")
-                base = ns[base_name]
-                I.set_attr(base, attr, make_symbolic(I, spec, f"{site}#{n}.{expr_name}", env=ns))
+                parts = expr_name.split(".")
+                base = ns[parts[0]]
+                for a in parts[1:-1]:
+                    base = I.get_attr(base, a)
+                I.set_attr(base, parts[-1], make_symbolic(I, spec, f"{site}#{n}.{expr_name}", env=ns))
             result = make_symbolic(I, rspec, f"{site}#{n}.result", env=ns) if rspec is not None else None
             ns["result"] = result
             for name, f in contract_functions(ccls, "ensures"):
